@@ -125,6 +125,8 @@ func cbArgLiteral(kind string, i int) (src string, val interface{}) {
 		return fmt.Sprintf("[%d, %d]", i, i+1), []interface{}{i, i + 1}
 	case "strs":
 		return "ss", []string{"u", "v"}
+	case "nilptr":
+		return "np", (*vRec)(nil)
 	}
 	panic("harness: arg kind " + kind)
 }
@@ -224,6 +226,7 @@ func c12Run(c *Ctx, raw json.RawMessage) {
 	ctx := env.context(nil)
 	ctx.Set("h", fn.Interface())
 	ctx.Set("ss", []string{"u", "v"})
+	ctx.Set("np", (*vRec)(nil))
 	parts := []string{}
 	vals := []interface{}{}
 	for i, a := range cc.Args {
@@ -231,7 +234,8 @@ func c12Run(c *Ctx, raw json.RawMessage) {
 		parts = append(parts, fmt.Sprintf("p(%d, %s)", i+1, lit))
 		vals = append(vals, v)
 	}
-	src := "<%= h(" + strings.Join(parts, ", ") + ")"
+	// (an earlier Go call with an argument in the same render: nothing of it may reach the call under test)
+	src := "<% vcount(0, 0, 0, 0, 0, 0) %><% id(0) %><%= h(" + strings.Join(parts, ", ") + ")"
 	if cc.Blk {
 		src += " { %>B<% }"
 	}
